@@ -1,6 +1,15 @@
+import SpecKitV.Props.NumpyKernelsGen
 import SpecKitV.Props.AttrsB
 import SpecKitV.Props.C01
 
+#print axioms gen_np_win_only_auto_eq_ref
+#print axioms gen_np_win_only_csd_eq_ref
+#print axioms gen_np_detrend0_auto_eq_ref
+#print axioms gen_np_detrend0_csd_eq_ref
+#print axioms gen_np_poly_auto_eq_ref
+#print axioms gen_np_poly_csd_eq_ref
+#print axioms np_poly_csd_chunk_invariant
+#print axioms np_poly_csd_M2_nonneg
 #print axioms emp_var_formula
 #print axioms emp_var_nonneg
 #print axioms emp_var_zero_of_M2_zero
